@@ -1142,6 +1142,30 @@ def build(tier='quick', seed=0):
                          derives=['Debug'], const_fn=cf, tags=['consteq'], note='twin:P'))
     full.append(decl('any', 'Point', new_unchecked=True, validators=[V('predicate', 'pred_point', form='path', callee='pred_point')],
                      derives=['Debug'], tags=['unchecked']))
+    # const_fn next to a sanitizer *and* validators (the sanitizer has to be a const fn; inner types are Copy, so a template
+    # that validates the raw value instead of the sanitized one still compiles)
+    for cf in (False, True):
+        full.append(decl('int', 'u32', sanitizers=[S('with', 'san_c_u32', 'path', callee='san_c_u32')],
+                         validators=[V('greater', '0', 0, 'lit'), V('less_or_equal', '1000', 1000, 'lit')],
+                         derives=['Debug', 'TryFrom', 'FromStr'], const_fn=cf, tags=['consteq', 'const-sanitize'], note='twin:CS1'))
+        full.append(decl('int', 'i32', sanitizers=[S('with', 'san_c_i32', 'path', callee='san_c_i32')],
+                         validators=[V('predicate', '|n| *n != 0', form='closure')] if not cf else [V('greater_or_equal', '-10', -10, 'lit')],
+                         derives=['Debug', 'TryFrom'], const_fn=cf, tags=['const-sanitize']))
+        full.append(decl('float', 'f64', sanitizers=[S('with', 'san_c_f64', 'path', callee='san_c_f64')],
+                         validators=[V('finite'), V('greater', '0.0', 0.0, 'lit')],
+                         derives=['Debug', 'TryFrom'], const_fn=cf, tags=['consteq', 'const-sanitize'], note='twin:CS2'))
+        full.append(decl('any', 'Point', sanitizers=[S('with', 'san_c_point', 'path', callee='san_c_point')],
+                         validators=[V('predicate', 'pred_point_c', form='path', callee='pred_point_c')],
+                         derives=['Debug', 'TryFrom'], const_fn=cf, tags=['consteq', 'const-sanitize'], note='twin:CS3'))
+    # shared-reference inner types (Copy) with a sanitizer and a predicate
+    full.append(decl('any', "&'a str", generics="<'a>", sanitizers=[S('with', 'trim_ref', 'path', callee='trim_ref')],
+                     validators=[V('predicate', '|s| !s.is_empty()', form='closure')],
+                     derives=['Debug', 'Clone', 'Copy', 'PartialEq', 'AsRef', 'Deref', 'Into', 'TryFrom', 'Display'], tags=['ref-inner']))
+    full.append(decl('any', "&'a [u8]", generics="<'a>", sanitizers=[S('with', 'first3', 'path', callee='first3')],
+                     validators=[V('predicate', '|s| !s.is_empty()', form='closure')],
+                     derives=['Debug', 'Clone', 'Copy', 'PartialEq', 'AsRef', 'Into', 'TryFrom'], tags=['ref-inner']))
+    full.append(decl('any', "&'a str", generics="<'a>", sanitizers=[S('with', '|s| s.trim()', 'closure')], derives=['Debug', 'Clone', 'Copy', 'From', 'Into'],
+                     tags=['ref-inner']))
 
     # ---------------- every derivable trait on its own (with its prerequisites), per family ------------
     req1 = {'Copy': ['Clone'], 'Eq': ['PartialEq'], 'Ord': ['PartialEq', 'Eq', 'PartialOrd'], 'PartialOrd': ['PartialEq']}
@@ -1531,7 +1555,10 @@ def build(tier='quick', seed=0):
     for i, d in enumerate(full):
         chunks[i % nchunks].append(d)
     crates = {}
-    extra = '\npub const fn pred_point_c(p: &Point) -> bool { p.x != p.y }\n'
+    extra = ('\npub const fn pred_point_c(p: &Point) -> bool { p.x != p.y }\n'
+             'pub const fn san_c_u32(n: u32) -> u32 { n - n % 5 }\npub const fn san_c_i32(n: i32) -> i32 { n - n % 5 }\n'
+             'pub const fn san_c_f64(x: f64) -> f64 { x * 0.5 }\npub const fn san_c_point(p: Point) -> Point { Point { x: p.x - p.x % 2, y: p.y } }\n'
+             'pub fn trim_ref(s: &str) -> &str { s.trim() }\npub fn first3(s: &[u8]) -> &[u8] { if s.len() > 3 { &s[..3] } else { s } }\n')
     for i, ch in enumerate(chunks):
         crates[f'cfull{i}'] = {'features': ['serde', 'arbitrary', 'new_unchecked', 'regex', 'schemars08'], 'std': True,
                                'edition': '2024' if i == 1 else '2021',    # one chunk of the grid is an edition-2024 user crate
